@@ -903,6 +903,9 @@ func (c *e1ctx) discharge(s *e1.Site) (string, bool) {
 		if r, ok := ruleSplitFirst(s); ok {
 			return r, true
 		}
+		if r, ok := c.ruleIndexOf(s); ok {
+			return r, true
+		}
 		if r, ok := ruleFieldName(s); ok {
 			return r, true
 		}
@@ -2458,4 +2461,114 @@ func ruleFieldName(s *e1.Site) (string, bool) {
 		}
 	}
 	return "", false
+}
+
+// ruleIndexOf (R-indexof): s[i] where i is the answer of a search helper of the repository - every return of the
+// helper is a negative constant or a loop counter that the helper's own loop condition keeps below len(P) of one of
+// its parameters -, the helper was handed the very slice that is indexed, and the index is used only where a
+// dominating test excluded the negative answer (i >= 0, i != -1, `if i < 0 { return }`).
+func (c *e1ctx) ruleIndexOf(s *e1.Site) (string, bool) {
+	var sl, idx ssa.Value
+	switch x := s.Instr.(type) {
+	case *ssa.IndexAddr:
+		sl, idx = x.X, x.Index
+	case *ssa.Index:
+		sl, idx = x.X, x.Index
+	default:
+		return "", false
+	}
+	call, ok := idx.(*ssa.Call)
+	if !ok {
+		return "", false
+	}
+	h := call.Call.StaticCallee()
+	if h == nil || len(h.Blocks) == 0 || !c.p.InRepo(h) || h.Signature.Results().Len() != 1 {
+		return "", false
+	}
+	// which parameter bounds the returned counter
+	var bound *ssa.Parameter
+	for _, b := range h.Blocks {
+		ret, isRet := b.Instrs[len(b.Instrs)-1].(*ssa.Return)
+		if !isRet {
+			continue
+		}
+		v := ret.Results[0]
+		if k, isK := su.ConstInt(v); isK {
+			if k >= 0 {
+				return "", false
+			}
+			continue
+		}
+		// v < len(P) on the true edge of a dominating loop test
+		found := false
+		for d := b.Idom(); d != nil; d = d.Idom() {
+			iff, isIf := d.Instrs[len(d.Instrs)-1].(*ssa.If)
+			if !isIf {
+				continue
+			}
+			bo, isBo := iff.Cond.(*ssa.BinOp)
+			if !isBo || bo.Op != token.LSS || bo.X != v {
+				continue
+			}
+			if !(d.Succs[0] == b || d.Succs[0].Dominates(b)) || len(d.Succs[0].Preds) != 1 {
+				continue
+			}
+			of, isLen := lenArg(bo.Y)
+			if !isLen {
+				continue
+			}
+			prm, isPrm := of.(*ssa.Parameter)
+			if !isPrm || (bound != nil && bound != prm) {
+				continue
+			}
+			// the counter never goes down: a phi of a non-negative constant and itself plus a positive constant
+			ph, isPhi := v.(*ssa.Phi)
+			if !isPhi {
+				continue
+			}
+			okPhi := true
+			for _, e := range ph.Edges {
+				if k, isK := su.ConstInt(e); isK {
+					if k < 0 {
+						okPhi = false
+					}
+					continue
+				}
+				add, isAdd := e.(*ssa.BinOp)
+				if !isAdd || add.Op != token.ADD || add.X != ssa.Value(ph) {
+					okPhi = false
+					continue
+				}
+				if k, isK := su.ConstInt(add.Y); !isK || k <= 0 {
+					okPhi = false
+				}
+			}
+			if okPhi {
+				bound, found = prm, true
+			}
+		}
+		if !found {
+			return "", false
+		}
+	}
+	if bound == nil {
+		return "", false
+	}
+	pi := -1
+	for i, q := range h.Params {
+		if q == bound {
+			pi = i
+		}
+	}
+	if pi < 0 || pi >= len(call.Call.Args) || su.Strip(call.Call.Args[pi]) != su.Strip(sl) {
+		return "", false
+	}
+	env := &descEnv{p: c.p, params: map[*ssa.Parameter]string{}, noInline: true}
+	d := env.desc(call, 0)
+	if !env.holdsAny(s.Instr.Block(), func(f cfact) bool {
+		return !f.val && (f.atom == d+"<0" || f.atom == "-1=="+d || f.atom == d+"==-1")
+	}) {
+		return "", false
+	}
+	return "R-indexof: the index is the answer of the search helper " + load.FuncName(h) + " over this very slice (a negative constant or a counter below len), used after the negative answer was excluded", true
 }
